@@ -898,3 +898,34 @@ func (v *View) KeysPrefix(_ context.Context, token, prefix, delimiter string, co
 	v.record(Event{Op: "list", Key: prefix, Arg: fmt.Sprintf("tok=%q delim=%q count=%d", token, delimiter, count), N: len(page)})
 	return page, next, nil
 }
+
+// StepClock is a virtual clock that advances by Step() every time it is read (no sleeping needed to
+// let seconds, or look-back windows, pass).
+type StepClock struct {
+	mu   sync.Mutex
+	t    time.Time
+	Step func() time.Duration
+	// Handed records every time the clock gave out.
+	Handed []time.Time
+}
+
+// NewStepClock starts at t.
+func NewStepClock(t time.Time, step func() time.Duration) *StepClock {
+	return &StepClock{t: t, Step: step}
+}
+
+// Now advances the clock and returns the new time.
+func (c *StepClock) Now() time.Time {
+	c.mu.Lock()
+	defer c.mu.Unlock()
+	c.t = c.t.Add(c.Step())
+	c.Handed = append(c.Handed, c.t)
+	return c.t
+}
+
+// Times returns the times handed out so far.
+func (c *StepClock) Times() []time.Time {
+	c.mu.Lock()
+	defer c.mu.Unlock()
+	return append([]time.Time(nil), c.Handed...)
+}
